@@ -199,7 +199,33 @@ var fnArgCols = []string{"i", "f", "d", "s", "b", "u", "i", "d", "s"}
 
 var builtinNames, aggNames, anaNames []string
 
+// ensureFnNames fills the lists of built-in, aggregate and analytic function
+// names from csvq's own tables (sorted: map order must not leak into scenarios).
+func ensureFnNames() {
+	if builtinNames == nil {
+		for n := range query.Functions {
+			switch n {
+			case "NOW", "RAND", "RANDOM", "CALL", "UUID", "RAND_INT", "SYSTEM":
+				continue // not functions of their arguments
+			}
+			builtinNames = append(builtinNames, n)
+		}
+		sort.Strings(builtinNames)
+	}
+	if aggNames == nil {
+		for n := range query.AggregateFunctions {
+			aggNames = append(aggNames, n)
+		}
+		for n := range query.AnalyticFunctions {
+			anaNames = append(anaNames, n)
+		}
+		sort.Strings(aggNames)
+		sort.Strings(anaNames)
+	}
+}
+
 func genFnProbe(r *Rng) c14Stmt {
+	ensureFnNames()
 	if builtinNames == nil {
 		for n := range query.Functions {
 			switch n {
